@@ -253,6 +253,60 @@ func (x *LabelExec) Apply(op drv.Op) (handled bool, v *drv.Violation, err error)
 			}
 			w.Stats.Probe("label-counters-compared-across-restart")
 		}
+		// the very first reads of the new lifetime, three clients at once: whichever of them makes the
+		// server rebuild its supervoxel->body mapping, all of them must be answered from the complete mapping
+		if x.M != nil {
+			g := x.M.Geom
+			best := -1
+			for _, vi := range x.D.Sorted() {
+				if lv := x.M.Versions[vi]; lv != nil && len(lv.Map) > 0 && (best < 0 || len(lv.Map) >= len(x.M.Versions[best].Map)) {
+					best = vi
+				}
+			}
+			if best >= 0 {
+				lv := x.M.Versions[best]
+				nx, ny, _ := g.Dims()
+				off := g.Offset()
+				var pts [][3]int
+				var want []uint64
+				seen := map[uint64]bool{}
+				for i, sv := range lv.Vox {
+					if b, mapped := lv.Map[sv]; mapped && !seen[sv] && len(pts) < 8 {
+						seen[sv] = true
+						pts = append(pts, [3]int{off[0] + i%nx, off[1] + (i/nx)%ny, off[2] + i/(nx*ny)})
+						want = append(want, b)
+					}
+				}
+				if len(pts) > 0 {
+					pj, _ := json.Marshal(pts)
+					var reqs []proto.Req
+					for c := 1; c <= 3; c++ {
+						reqs = append(reqs, proto.Req{Client: fmt.Sprintf("c%d", c), Kind: "http", Method: "GET", URL: x.base(best) + "/labels", Body: pj})
+					}
+					res, e := w.Batch(reqs, "barrier")
+					if e != nil {
+						return true, nil, e
+					}
+					if res.Wedged {
+						return true, nil, w.ClassifyWedge("first concurrent label reads after a restart", res.Stacks)
+					}
+					for _, rp := range res.Resps {
+						var got []uint64
+						if rp.Status != 200 || json.Unmarshal(rp.Body, &got) != nil || len(got) != len(want) {
+							return true, &drv.Violation{Prop: "C03", Oracle: "first-reads-after-restart", Sig: "first concurrent label reads after a restart fail",
+								Detail: fmt.Sprintf("GET %s/labels %s -> %d %s", x.base(best), pj, rp.Status, trunc(rp.Body))}, nil
+						}
+						for i := range want {
+							if got[i] != want[i] {
+								return true, &drv.Violation{Prop: "C03", Oracle: "first-reads-after-restart", Sig: "first concurrent label reads after a restart answer from a partly rebuilt mapping",
+									Detail: fmt.Sprintf("three clients GET %s/labels %s right after the %s restart; client %s is answered %v, the bodies are %v", x.base(best), pj, kind, rp.Client, got, want)}, nil
+							}
+						}
+					}
+					w.Stats.Probe("first-concurrent-reads-after-restart")
+				}
+			}
+		}
 		return true, nil, nil
 	}
 	if x.M == nil || !x.D.Has(op.V) || x.D.Nodes[op.V].Locked {
